@@ -289,6 +289,15 @@ def check_c01(tier, seed):
                {"op": "read", "p": sp(["a"]), "heavy": ver == 4}]
         big.append({"id": f"bigwrite_v{ver}", "ver": ver, "heavy": "marked", "ops": ops})
     run_batch(out, "bigwrite", "A", big)
+    # histories that cross the geometry thresholds (second FAT sector, 109th FAT sector, DIFAT sectors, directory and
+    # MiniFAT sectors): results and panics are judged here, the images by C02 / C03
+    run_batch(out, "thresholds", "A", gens.threshold_histories(tier, seed))
+    # the histories other checks generate for their own purposes (C15 cycles: reuse of released space in every
+    # order, reversed chains, container fill levels; C08 shrink / grow grids) are API histories like any other:
+    # every result and listing in them is judged here (those checks only judge sizes / zero fill)
+    step = 2 if tier == "quick" else 1
+    borrowed = [dict(h, heavy="last") for h in gens.c15_templates(tier)[::step]] + gens.c08_templates(tier)[::2 * step]
+    run_batch(out, "borrowed", "A", borrowed)
     for dn, hs in random_batches(seed, tier, 60, 600, 40, dicts=("A", "B")).items():
         run_batch(out, f"random{dn}", dn, hs)
     # listing order on the alphabets where the CFB order (upper-cased code units, shorter first) differs from
